@@ -96,6 +96,11 @@ impl SourceFileAnalyzer {
             let tokenize_result = Tokenizer::new(line, &mut self.string_manager)
                 .skip_bytes(line_number_end)
                 .remaining_tokens_and_ranges();
+            // Only map the BASIC line number to this file line if this file line
+            // is what's actually stored in the program; otherwise an earlier
+            // definition of the same line number (if any) remains in effect, and
+            // diagnostics for it must keep pointing at that earlier file line.
+            let mut is_stored = false;
             match tokenize_result {
                 Ok((tokens, token_ranges)) => {
                     for (token, range) in tokens.iter().zip(&token_ranges) {
@@ -106,12 +111,17 @@ impl SourceFileAnalyzer {
                         self.warn_line(i, "Line contains no statements and will not be defined.");
                     } else {
                         self.program.set_numbered_line(basic_line_number, tokens);
+                        is_stored = true;
                     }
                 }
                 Err(err) => self.messages.push(DiagnosticMessage::Error(i, err.into())),
             }
-            self.source_file_map
-                .add(basic_line_number, source_line_ranges);
+            if is_stored {
+                self.source_file_map
+                    .add(basic_line_number, source_line_ranges);
+            } else {
+                self.source_file_map.add_unstored(source_line_ranges);
+            }
             self.line_tokens.push(line_tokens);
         }
         self.lines = lines;
